@@ -2,6 +2,7 @@ package main
 
 import (
 	"fmt"
+	"strconv"
 	"strings"
 )
 
@@ -93,5 +94,190 @@ func (k *K) traceRule(id string, app appDesc) {
 	}
 	if nret == 0 {
 		k.r.Undecided(id+"/"+app.name+".parse", "BIND", fnShort(pt), k.w.Pos(pt.Fn.Pos()), "ParseClassTrace has no return")
+	}
+}
+
+// seqOf normalises a []string-valued term into the sequence of path elements it denotes:
+// "R:S[:hi]" for a leading range of the split S, "E:term" for a single element. It
+// understands append (with a variadic slice or with listed elements), slice literals,
+// make([]string, 0, n), sub-slices of S and S[n-1:] (the last element). ok=false for
+// anything else.
+func seqOf(t *Term, S, n1 string) ([]string, bool) {
+	switch t.Op {
+	case "make":
+		if len(t.Args) == 1 && t.Args[0].String() == "const(0)" {
+			return nil, true
+		}
+		return nil, false
+	case "arr":
+		var out []string
+		for _, a := range t.Args {
+			out = append(out, "E:"+a.String())
+		}
+		return out, true
+	case "slice":
+		if len(t.Args) != 3 || t.Args[0].String() != S {
+			return nil, false
+		}
+		lo, hi := t.Args[1], t.Args[2]
+		loEmpty := lo.Op == "const" && (lo.Name == "" || lo.Name == "0")
+		hiEmpty := hi.Op == "const" && hi.Name == ""
+		switch {
+		case loEmpty && !hiEmpty:
+			return []string{"R:" + S + "[:" + foldSub(hi) + "]"}, true
+		case lo.String() == n1 && hiEmpty:
+			return []string{"E:" + S + "[" + n1 + "]"}, true
+		}
+		return nil, false
+	case "call":
+		if t.Name == "builtin.append" && len(t.Args) >= 1 {
+			out, ok := seqOf(t.Args[0], S, n1)
+			if !ok {
+				return nil, false
+			}
+			for _, a := range t.Args[1:] {
+				more, ok := seqOf(a, S, n1)
+				if !ok {
+					return nil, false
+				}
+				out = append(out, more...)
+			}
+			return out, true
+		}
+	}
+	return nil, false
+}
+
+// foldSub renders (x - a) - b with integer constants a, b as (x - const(a+b)).
+func foldSub(t *Term) string {
+	base, sum, n := t, 0, 0
+	for base.Op == "bin" && base.Name == "-" && len(base.Args) == 2 && base.Args[1].Op == "const" {
+		c, err := strconv.Atoi(base.Args[1].Name)
+		if err != nil {
+			break
+		}
+		sum += c
+		n++
+		base = base.Args[0]
+	}
+	if n == 0 {
+		return t.String()
+	}
+	return "(" + base.String() + " - const(" + strconv.Itoa(sum) + "))"
+}
+
+// pathArithRule: the two class-path helpers are exact inverses at the level of path
+// elements. Moving away inserts the receiving chain in front of the base class and keeps
+// every other element; moving back removes the element in front of the base class (or
+// returns the base class when only prefix/source/dest/base are left):
+//
+//	away(class, dest) = Join(S[:n-1] ++ [dest] ++ S[n-1:], D)      S = Split(class, D), n = len(S)
+//	back(class)       = Join(S[:n-2] ++ [S[n-1]], D)   |   S[n-1]
+//
+// Any other way of rebuilding the path (fixed indices, a bounded split) is reported as
+// undecided: the checker can show "all hops are preserved" only for these forms.
+func (k *K) pathArithRule(id string, app appDesc) {
+	type spec struct {
+		name     string
+		classIdx int
+		want     func(S, n1, D string) []string
+	}
+	specs := []spec{
+		{"getAwayNewClassPath", 3, func(S, n1, D string) []string {
+			return []string{"strings.Join(builtin.append(" + S + "[const():" + n1 + "],builtin.append(arr:($2)," + S + "[" + n1 + ":const()]))," + D + ")"}
+		}},
+		{"getBackNewClassPath", 1, func(S, n1, D string) []string {
+			n2 := strings.Replace(n1, "const(1)", "const(2)", 1)
+			return []string{"strings.Join(builtin.append(" + S + "[const():" + n2 + "],arr:(" + S + "[" + n1 + "]))," + D + ")", S + "[" + n1 + "]"}
+		}},
+	}
+	for _, sp := range specs {
+		fi := k.method(app.keeperPkg, "Keeper", sp.name)
+		if fi == nil {
+			continue
+		}
+		cls := P(sp.classIdx).String()
+		nret, bad := 0, ""
+		for _, rt := range fi.Returns() {
+			t := fi.T.Of(RetVal(rt.Instr, 0))
+			var leaves []*Term
+			var flat func(x *Term)
+			flat = func(x *Term) {
+				if x.Op == "phi" {
+					for _, a := range x.Args {
+						flat(a)
+					}
+					return
+				}
+				leaves = append(leaves, x)
+			}
+			flat(t)
+			for _, l := range leaves {
+				s := l.String()
+				if !strings.Contains(s, "strings.Split(") && !strings.Contains(s, "strings.SplitN(") && !strings.Contains(s, "strings.Fields") {
+					continue // the native-class branch (prefix/source/dest/class), checked by the branch tables
+				}
+				nret++
+				// the delimiter is whatever constant the split uses; it must be used consistently
+				i := strings.Index(s, "strings.Split("+cls+",")
+				if i < 0 {
+					bad = clip(s)
+					continue
+				}
+				rest := s[i+len("strings.Split("+cls+","):]
+				j := strings.Index(rest, ")")
+				if j < 0 || !strings.HasPrefix(rest, "const(") {
+					bad = clip(s)
+					continue
+				}
+				D := rest[:j+1]
+				S := "strings.Split(" + cls + "," + D + ")"
+				n1 := "(builtin.len(" + S + ") - const(1))"
+				ok := false
+				for _, w := range sp.want(S, n1, D) {
+					if s == w {
+						ok = true
+					}
+				}
+				// the same element sequence built another way (fresh slice + appends, one append
+				// with several elements, ...): compare the sequences of path elements
+				if !ok {
+					n2 := strings.Replace(n1, "const(1)", "const(2)", 1)
+					last := "E:" + S + "[" + n1 + "]"
+					var want [][]string
+					if sp.name == "getAwayNewClassPath" {
+						want = [][]string{{"R:" + S + "[:" + n1 + "]", "E:$2", last}}
+					} else {
+						want = [][]string{{"R:" + S + "[:" + n2 + "]", last}, {last}}
+					}
+					var got []string
+					okSeq := false
+					if l.Op == "call" && l.Name == "strings.Join" && len(l.Args) == 2 && l.Args[1].String() == D {
+						got, okSeq = seqOf(l.Args[0], S, n1)
+					} else if l.Op == "index" {
+						got, okSeq = seqOf(&Term{Op: "arr", Args: []*Term{l}}, S, n1)
+					}
+					if okSeq {
+						for _, w := range want {
+							if strings.Join(got, " ") == strings.Join(w, " ") {
+								ok = true
+							}
+						}
+					}
+				}
+				if !ok {
+					bad = clip(s)
+				}
+			}
+		}
+		if nret == 0 {
+			k.r.Undecided(id+"/"+app.name+"."+sp.name, "BIND", fnShort(fi), k.w.Pos(fi.Fn.Pos()), "no path-rebuilding result found in "+sp.name)
+			continue
+		}
+		if bad != "" {
+			k.r.Undecided(id+"/"+app.name+"."+sp.name, "BIND", fnShort(fi), k.w.Pos(fi.Fn.Pos()), sp.name+" rebuilds the class path as "+bad+"; the checker can show that every hop of the old path is preserved (so that each intermediate chain's voucher is burnt on the way back) only for the element-wise insert/remove forms over strings.Split/strings.Join")
+			continue
+		}
+		k.r.OK(id+"/"+app.name+"."+sp.name, "BIND", fnShort(fi), k.w.Pos(fi.Fn.Pos()), "path rebuilt element-wise: all hops preserved, one element inserted/removed in front of the base class")
 	}
 }
